@@ -763,11 +763,8 @@ def r5(ctx, facts):
     ctx.decide(bool(acc_t) and all(t.startswith("double") for t in acc_t), "C06-R5", C.line(fn), CEN, "inplace_center_and_trace_atom_major", "sums and trace accumulate in double", "", "accumulator types are %s" % acc_t)
     # subtraction + trace: one vector block then one tail atom, with the means as symbols
     try:
+        # the means stay the expressions just verified (whatever locals hold them): the coordinates are re-read as the same symbols c[k]
         s5 = s4.fork()
-        for nm in ("sxf", "syf", "szf"):
-            s5.env[nm] = _sym(nm)
-        for nm, f in (("mux_", "sxf"), ("muy_", "syf"), ("muz_", "szf")):
-            s5.env[nm] = Vec([_sym(f)] * 4)
         for key in [k for k in s5.env if isinstance(k, tuple) and k[0] == "c"]:
             del s5.env[key]
         s5.env["confp"] = Ptr("c", 0)
@@ -779,7 +776,9 @@ def r5(ctx, facts):
         s9 = ex4.run(fb[inner[3] + 1:], s8)
     except Unsupported as e:
         raise AnalysisError("centring kernel (subtract/trace): %s" % e)
-    mu = [_sym("sxf"), _sym("syf"), _sym("szf")]
+    mu = [s4.env.get((nm_, 0)) for nm_ in ("sx", "sy", "sz")]
+    if any(m_ is None for m_ in mu):
+        raise AnalysisError("centring kernel: the means sx[0], sy[0], sz[0] are not available after the summation phase")
     bad = []
     for l in range(5):
         for ax in range(3):
